@@ -291,10 +291,10 @@ func (d *drv) tcpProbe(addr string, hl []byte) (bool, int, string, error) {
 	}
 	c.Write(hl)
 	c.(*net.TCPConn).CloseWrite()
-	c.SetReadDeadline(time.Now().Add(5 * time.Second))
+	c.SetReadDeadline(time.Now().Add(3 * time.Second))
 	io.Copy(io.Discard, c)
 	c.Close()
-	deadline := time.Now().Add(5 * time.Second)
+	deadline := time.Now().Add(3 * time.Second)
 	for time.Now().Before(deadline) {
 		after, _, err := d.scrape()
 		if err != nil {
@@ -311,7 +311,7 @@ func (d *drv) tcpProbe(addr string, hl []byte) (bool, int, string, error) {
 		}
 		time.Sleep(2 * time.Millisecond)
 	}
-	return true, 0, "", errors.New("connections_closed did not move within 5s")
+	return true, 0, "", errors.New("connections_closed did not move within 3s")
 }
 
 func (d *drv) udpHeld(addr string) bool {
@@ -372,12 +372,18 @@ func (d *drv) udpProbe(addr string, k vKey) (int, error) {
 func (d *drv) probe(tag string) {
 	serving := [][]interface{}{}
 	listening := [][]interface{}{}
+	unhandled := [][]interface{}{}
 	problems := []string{}
 	for a := 1; a <= len(d.ports); a++ {
 		addr := d.addr(a)
 		tcpL := false
 		for cs := 1; cs <= len(vClassKey); cs++ {
 			ln, id, _, err := d.tcpProbe(addr, hello(vKeys[vClassKey[cs]], "127.0.0.1:9"))
+			if err != nil && ln && strings.Contains(err.Error(), "connections_closed did not move") {
+				unhandled = append(unhandled, []interface{}{"tcp", a})
+				tcpL = true
+				break
+			}
 			if err != nil {
 				problems = append(problems, err.Error())
 			}
@@ -396,6 +402,10 @@ func (d *drv) probe(tag string) {
 			listening = append(listening, []interface{}{"udp", a})
 			for cs := 1; cs <= len(vClassKey); cs++ {
 				id, err := d.udpProbe(addr, vKeys[vClassKey[cs]])
+				if err != nil && strings.Contains(err.Error(), "was not processed") {
+					unhandled = append(unhandled, []interface{}{"udp", a})
+					break
+				}
 				if err != nil {
 					problems = append(problems, err.Error())
 					continue
@@ -409,7 +419,7 @@ func (d *drv) probe(tag string) {
 	if !d.alive() {
 		problems = append(problems, "process exited")
 	}
-	d.tr.Emit(map[string]any{"ev": "Probe", "tag": tag, "serving": serving, "listening": listening, "runners": -1, "problems": problems})
+	d.tr.Emit(map[string]any{"ev": "Probe", "tag": tag, "serving": serving, "listening": listening, "runners": -1, "problems": problems, "unhandled": unhandled})
 	// C20 at process level: nothing the server exports may contain the client's address
 	_, text, err := d.scrape()
 	if err == nil {
